@@ -93,6 +93,12 @@ func swValue(e swEntry, now time.Time) []byte {
 	case "old":
 		return MakeRaw(uint64(now.Add(-2*swRetention).UnixNano()), uint64(e.V), 1, 0, nil)
 	case "young":
+		switch e.V % 3 {
+		case 0: // ahead of the local clock (another instance's clock, or written while the pass is running)
+			return MakeRaw(uint64(now.Add(5*time.Second).UnixNano()), uint64(e.V), 1, 0, nil)
+		case 1:
+			return MakeRaw(uint64(time.Now().UnixNano()), uint64(e.V), 1, 0, nil) // fresh
+		}
 		return MakeRaw(uint64(now.Add(-swRetention/2).UnixNano()), uint64(e.V), 1, 0, nil)
 	}
 	return nil
@@ -176,6 +182,25 @@ func replaySweep(R *Result, in swInput, beh []swStep, bi int) error {
 	}
 	var done chan error
 	running := false
+	// drain lets a running pass finish before the environment is closed
+	drain := func() {
+		if !running {
+			return
+		}
+		deadline := time.After(20 * time.Second)
+		for {
+			select {
+			case g.resume <- struct{}{}:
+			case <-g.parked:
+			case <-done:
+				running = false
+				return
+			case <-deadline:
+				return
+			}
+		}
+	}
+	defer drain()
 	for si, st := range beh {
 		a := st.Act
 		R.Add(1, 0, 0)
@@ -207,8 +232,6 @@ func replaySweep(R *Result, in swInput, beh []swStep, bi int) error {
 			case <-g.parked:
 				if !a.More {
 					bad("slicing", si, "the real pass takes another write-lock slice, the specification has finished (scanned %v)", a.Scanned)
-					g.resume <- struct{}{}
-					<-done
 					return nil
 				}
 			case err := <-done:
@@ -289,25 +312,10 @@ func replaySweep(R *Result, in swInput, beh []swStep, bi int) error {
 				}
 			}
 			bad(cls, si, "DBI holds %v, specification %v", got, st.DBI)
-			if running {
-				select {
-				case g.resume <- struct{}{}:
-				case <-done:
-				}
-			}
 			return nil
 		}
 	}
-	if running {
-		select {
-		case g.resume <- struct{}{}:
-		default:
-		}
-		select {
-		case <-done:
-		case <-time.After(5 * time.Second):
-		}
-	}
+	drain()
 	if len(beh) > 3 {
 		R.Add(0, 1, 0)
 	}
